@@ -449,3 +449,111 @@ Proof.
   destruct (scalar_from_go orc k (query_go_value (scalar_kind_eqb k KBool) v)) as [r| | |]; cbn [obind omap]; try reflexivity.
   destruct (with_holder (p_path p) m _) as [[m' u]| | |]; reflexivity.
 Qed.
+
+(* ================================================================ an independent reading of decimal integers *)
+(* positional notation: an optional sign, one or more ASCII digits, value = sum of digit * 10^position
+   (Radix.of_digits_be is the positional value, defined without reference to any parser) *)
+Definition decimal_denotes (s : bytes) (z : Z) : Prop :=
+  exists (sign : option bool) (digits : bytes),
+    s = match sign with None => [] | Some false => [43%N] | Some true => [45%N] end ++ digits /\
+    digits <> [] /\ Forall (fun c => is_digit c = true) digits /\
+    z = (match sign with Some true => -1 | _ => 1 end * Z.of_N (of_digits_be 10 0 (map (fun c => c - 48)%N digits)))%Z.
+
+Lemma digits_value_some s acc n : digits_value s acc = Some n -> Forall (fun c => is_digit c = true) s.
+Proof.
+  revert acc. induction s as [|c r IH]; intros acc H; [constructor|]. cbn in H.
+  destruct (is_digit c) eqn:E; [|discriminate]. constructor; [exact E|eapply IH; exact H].
+Qed.
+
+Lemma parse_unsigned_denotes s n : parse_unsigned s = Some n <->
+  (s <> [] /\ Forall (fun c => is_digit c = true) s /\ n = of_digits_be 10 0 (map (fun c => c - 48)%N s)).
+Proof.
+  split.
+  - intros H. destruct s as [|c r]; [discriminate|]. unfold parse_unsigned in H.
+    pose proof (digits_value_some _ _ _ H) as Hd. rewrite digits_value_spec in H by exact Hd.
+    inversion H. repeat split; [discriminate|exact Hd].
+  - intros (Hne & Hd & ->). destruct s as [|c r]; [congruence|]. unfold parse_unsigned.
+    apply digits_value_spec. exact Hd.
+Qed.
+
+Theorem parse_signed_denotes s z : parse_signed s = Some z <-> decimal_denotes s z.
+Proof.
+  split.
+  - intros H. unfold parse_signed in H. destruct s as [|c r]; [discriminate|].
+    destruct (c =? 43)%N eqn:E1.
+    + apply N.eqb_eq in E1. subst c. destruct (parse_unsigned r) as [n|] eqn:En; [|discriminate].
+      inversion H; subst. apply parse_unsigned_denotes in En. destruct En as (Hne & Hd & ->).
+      exists (Some false), r. repeat split; try assumption; try lia.
+    + destruct (c =? 45)%N eqn:E2.
+      * apply N.eqb_eq in E2. subst c. destruct (parse_unsigned r) as [n|] eqn:En; [|discriminate].
+        inversion H; subst. apply parse_unsigned_denotes in En. destruct En as (Hne & Hd & ->).
+        exists (Some true), r. repeat split; try assumption; try lia.
+      * destruct (parse_unsigned (c :: r)) as [n|] eqn:En; [|discriminate].
+        inversion H; subst. apply parse_unsigned_denotes in En. destruct En as (Hne & Hd & ->).
+        exists None, (c :: r). repeat split; try assumption; try lia.
+  - intros (sign & digits & -> & Hne & Hd & ->).
+    assert (Hu : parse_unsigned digits = Some (of_digits_be 10 0 (map (fun c => (c - 48)%N) digits)))
+      by (apply parse_unsigned_denotes; repeat split; assumption).
+    destruct sign as [[|]|]; cbn [app].
+    + unfold parse_signed. change (45 =? 43)%N with false. change (45 =? 45)%N with true. cbn iota.
+      rewrite Hu. f_equal; try lia.
+    + unfold parse_signed. change (43 =? 43)%N with true. cbn iota. rewrite Hu. f_equal; try lia.
+    + destruct digits as [|c r]; [congruence|]. unfold parse_signed.
+      inversion Hd as [|? ? Hc _]; subst. unfold is_digit in Hc. apply andb_prop in Hc. destruct Hc as [H1 H2].
+      apply N.leb_le in H1. apply N.leb_le in H2.
+      replace (c =? 43)%N with false by (symmetry; apply N.eqb_neq; lia).
+      replace (c =? 45)%N with false by (symmetry; apply N.eqb_neq; lia).
+      rewrite Hu. f_equal; try lia.
+Qed.
+
+(* integer exactness against the independent reading *)
+Theorem int_exact_decimal k lo hi v z :
+  int_range k = Some (lo, hi) -> (exists s, v = GStr s \/ v = GNum s) ->
+  int_from_go k v = Ok (Some (VInt z)) ->
+  (exists s, (v = GStr s \/ v = GNum s) /\ decimal_denotes s z) /\ (lo <= z <= hi)%Z.
+Proof.
+  intros Hk Hv H. destruct (int_exact k lo hi v z Hk Hv H) as [(s & Hs & Hd) Hr].
+  split; [|exact Hr]. exists s. split; [exact Hs|]. apply parse_signed_denotes. exact Hd.
+Qed.
+
+(* ================================================================ quoted or bare: floats and decimals *)
+(* for ANY behaviour of strconv.ParseFloat / decimal.NewFromString the quoted and the bare spelling of
+   the same text go through the same conversion *)
+Theorem float_decimal_quoted_or_bare orc k s :
+  k = KFloat32 \/ k = KFloat64 \/ k = KDecimal ->
+  scalar_from_go orc k (GStr s) = scalar_from_go orc k (GNum s).
+Proof. intros [-> | [-> | ->]]; reflexivity. Qed.
+
+(* wrong JSON type for the remaining kinds: floats take numbers and strings only *)
+Theorem float_wrong_type_rejected orc k :
+  k = KFloat32 \/ k = KFloat64 ->
+  is_err (scalar_from_go orc k GNil) = true /\ forall b, is_err (scalar_from_go orc k (GBool b)) = true.
+Proof. intros [-> | ->]; split; try intros b; reflexivity. Qed.
+
+(* ================================================================ dates: the numbers written *)
+Lemma atoi_denotes a y : atoi a = Some y -> decimal_denotes a y.
+Proof.
+  unfold atoi, parse_int_bits. destruct (parse_signed a) as [z|] eqn:E; [|discriminate].
+  destruct (in_range min_i64 max_i64 z); intros H; inversion H; subst. apply parse_signed_denotes. exact E.
+Qed.
+
+Theorem date_exact_strong s y m d :
+  date_from_string s = Some (y, m, d) ->
+  exists a b c, split_on 45 s [] = [a; b; c] /\
+    decimal_denotes a y /\ decimal_denotes b m /\ decimal_denotes c d /\
+    (0 <= y <= 9999 /\ 1 <= m <= 12 /\ 1 <= d <= days_in y m)%Z.
+Proof.
+  intros H. pose proof (date_exact s y m d H) as Hr.
+  unfold date_from_string in H. destruct (split_on 45 s []) as [|a [|b [|c [|? ?]]]]; try discriminate.
+  destruct (atoi a) as [y'|] eqn:Ea; [|discriminate]. destruct (atoi b) as [m'|] eqn:Eb; [|discriminate].
+  destruct (atoi c) as [d'|] eqn:Ec; [|discriminate].
+  destruct ((y' <? 0)%Z || (9999 <? y')%Z || (m' <? 1)%Z || (12 <? m')%Z || (d' <? 1)%Z || (days_in y' m' <? d')%Z) eqn:E; [discriminate|].
+  repeat (apply orb_false_elim in E; destruct E as [E ?]).
+  assert (Hd : (days_in y' m' <= 31)%Z).
+  { unfold days_in. repeat match goal with |- context[if ?c then _ else _] => destruct c end; lia. }
+  assert (Hw : forall x, (0 <= x < 2147483648)%Z -> wrap_i32 x = x).
+  { intros x Hx. unfold wrap_i32. rewrite Z.mod_small by lia.
+    destruct (x <? 2147483648)%Z eqn:Ex; [reflexivity|]. lia. }
+  rewrite !Hw in H by lia. inversion H; subst.
+  exists a, b, c. repeat split; try (apply atoi_denotes; assumption); lia.
+Qed.
